@@ -2,7 +2,8 @@
 //!
 //! `CRYPTO <id> <op> <flags:hex8> <maxcost> <args-tree-hex> <oracle> <mode>`
 //!   oracle  real hash-to-curve output (g1_map/g2_map) or real pairing/verify verdict `1`/`0`,
-//!           computed with chia_bls directly at generation time; `-` when not computable
+//!           computed with chia_bls directly at generation time; `-` when not computable.
+//!           Diagnostic only: the Lean model computes pairing and hash-to-curve itself and ignores it.
 //!   mode    f = fresh allocator; w = the operator is run twice in the same allocator and the
 //!           second outcome is reported; p = every 48/96-byte atom argument is first offered to
 //!           validate_g1/validate_g2 and valid points are re-created with new_g1/new_g2
